@@ -23,6 +23,7 @@ import (
 	"github.com/sdcio/data-server/pkg/utils"
 	sdcpb "github.com/sdcio/sdc-protos/sdcpb"
 	log "github.com/sirupsen/logrus"
+	"google.golang.org/protobuf/types/known/emptypb"
 
 	schemaClient "github.com/sdcio/data-server/pkg/datastore/clients/schema"
 )
@@ -147,6 +148,14 @@ func (x *XML2sdcpbConfigAdapter) transformContainer(ctx context.Context, e *etre
 
 	leafListUpdates := ntc.Close()
 	result.Update = append(result.Update, leafListUpdates...)
+
+	// an empty element of a presence container is configuration by itself
+	if cs.GetIsPresence() && len(e.ChildElements()) == 0 {
+		result.Update = append(result.Update, &sdcpb.Update{
+			Path:  &sdcpb.Path{Elem: cPElem},
+			Value: &sdcpb.TypedValue{Value: &sdcpb.TypedValue_EmptyVal{EmptyVal: &emptypb.Empty{}}},
+		})
+	}
 
 	return nil
 }
